@@ -198,15 +198,20 @@ func (cp *connPair) send(toServer bool, n int, data []byte, fin bool) {
 	}
 	w.Post(at, key, func() {
 		p.mu.Lock()
+		delivered := false
 		if p.err == nil && !p.rclosed {
 			if fin {
 				p.eof = true
 			} else {
 				p.buf = append(p.buf, data...)
+				delivered = true
 			}
 		}
 		p.cond.Broadcast()
 		p.mu.Unlock()
+		if delivered && w.OnDeliver != nil {
+			w.OnDeliver(cp.client, toServer, n, data)
+		}
 		if verdict == SegResetAfter {
 			cp.Reset("policy-after")
 		}
@@ -296,15 +301,20 @@ func (cp *connPair) sendNoPolicy(toServer bool, n int, data []byte, fin bool) {
 	p.mu.Unlock()
 	w.Post(at, key, func() {
 		p.mu.Lock()
+		delivered := false
 		if p.err == nil && !p.rclosed {
 			if fin {
 				p.eof = true
 			} else {
 				p.buf = append(p.buf, data...)
+				delivered = true
 			}
 		}
 		p.cond.Broadcast()
 		p.mu.Unlock()
+		if delivered && w.OnDeliver != nil {
+			w.OnDeliver(cp.client, toServer, n, data)
+		}
 	})
 }
 
